@@ -73,7 +73,7 @@ class AbsStr(AbstractValue):
         return AbsStr(prov=what + (self.prov,))
 
     def abs_method(self, interp, name, args, kwargs):
-        a = tuple(_freeze(x) for x in args)
+        a = tuple(_freeze(x) for x in args) + tuple((k, _freeze(v)) for k, v in sorted(kwargs.items()))
         if name in ('startswith', 'endswith', 'isspace', 'isdigit', 'isupper', 'isalpha', 'isalnum'):
             return Cond(('strtest', name, a, self.prov))
         if name in ('split', 'splitlines', 'rsplit'):
